@@ -202,6 +202,18 @@ def make_objects(tier, seed):
                 content = bytes(rng.randrange(256) for _ in range(L))
             m = pgpy.PGPMessage.new(content, compression=CompressionAlgorithm.Uncompressed, format='b')
             objs.append(({'kind': 'message', 'len': L, 'fill': fill}, 'MESSAGE', pgpy.PGPMessage, m))
+    # binary exports that CONTAIN a complete armored block at the start of a line (a forwarded armored message or a pasted public key inside
+    # the text of an uncompressed literal, a notation holding such text): the binary form is read as binary, whatever its content looks like
+    inner = pgpy.PGPMessage.new(b'the inner message', compression=CompressionAlgorithm.Uncompressed, format='b')
+    for what, block in (('an armored message', str(inner)), ('an armored public key', str(k.pubkey)), ('an armored signature', str(sig))):
+        text = ('-- forwarded --\n' + block + '\nregards \u2603\n').encode('utf-8')
+        m = pgpy.PGPMessage.new(text, compression=CompressionAlgorithm.Uncompressed, format='b')
+        objs.append(({'kind': 'message', 'len': len(text), 'fill': 'text containing ' + what}, 'MESSAGE', pgpy.PGPMessage, m))
+    m = pgpy.PGPMessage.new('signed text\n' + str(inner), compression=CompressionAlgorithm.Uncompressed)
+    m |= k.sign(m)
+    objs.append(({'kind': 'message', 'len': len(bytes(m)), 'fill': 'signed text containing an armored message'}, 'MESSAGE', pgpy.PGPMessage, m))
+    nsig = k.sign('x', notation={'pasted@example.org': 'see\n' + str(inner)})
+    objs.append(({'kind': 'signature', 'fill': 'notation containing an armored message'}, 'SIGNATURE', pgpy.PGPSignature, nsig))
     objs.append(({'kind': 'public key'}, 'PUBLIC KEY BLOCK', pgpy.PGPKey, k.pubkey))
     objs.append(({'kind': 'private key'}, 'PRIVATE KEY BLOCK', pgpy.PGPKey, k))
     objs.append(({'kind': 'signature'}, 'SIGNATURE', pgpy.PGPSignature, sig))
@@ -295,6 +307,8 @@ def check_block(desc, label, cls, obj):
     try:
         ref, w = load(cls, raw)
         refbytes = safe_bytes(ref)
+        if refbytes != raw:
+            fail('reload', 'the object loaded from the BINARY export exports other octets (%d -> %d)' % (len(raw), len(refbytes)))
     except Exception as ex:
         fail('reload', 'binary load raises %s' % type(ex).__name__)
         refbytes = None
@@ -437,7 +451,9 @@ def check_nonascii_header():
 
 HEADER_PROBES = [[('Comment', 'a: b')], [('Comment', 'trailing blank ')], [('Comment', ' leading blank')],
                  [('Comment', 'tab\tinside')], [('X-Custom-Key', 'v')], [('Comment', 'x'), ('Hash', 'SHA256'), ('MessageID', 'm')],
-                 [('Comment', '')]]
+                 [('Comment', '')]] + \
+    [[('Comment', 'k' * n)] for n in (58, 59, 60, 66, 67, 68, 69, 76, 100, 300, 1000)] + \
+    [[('Comment', 'https://keys.example.org/pks/lookup?op=get&search=0x' + 'A1B2C3D4' * 5)], [('X-A-Rather-Long-Header-Key-Of-Forty-Chars-', 'v' * 40), ('Version', 'w' * 80)]]
 
 
 def check_header_probes():
